@@ -69,6 +69,7 @@ type Path struct {
 	clockLast *Term
 	pcSet     map[*Term]bool
 	oracleCalls int
+	exps      []expApp
 }
 
 func (p *Path) replaying() bool { return len(p.decisions) < len(p.prefix) }
@@ -549,21 +550,21 @@ func (m *Machine) concretize(t *Term, what string, classes bool) uint64 {
 			if !classes && p.concCount[what] > m.cfg.MaxConcretize {
 				panic(boundHit{fmt.Sprintf("more than %d values for %s", m.cfg.MaxConcretize, what)})
 			}
-			r := m.S.Check()
-			if r != Sat {
-				panic(pathEnd{"infeasible at concretisation: " + r.String()})
-			}
-			bv, ok := m.S.Value(t)
+			// smallest feasible value (binary search with cheap feasibility queries;
+			// get-value is slow in z3 once many definitions exist)
+			mv, ok := m.minFeasible(t)
 			if !ok {
-				panic(engineBug{"no model value for " + t.String()})
-			}
-			v = bv.Uint64()
-			if classes {
-				// prefer the smallest values first: ask for the minimum among the remaining
-				if mv, ok := m.minFeasible(t); ok {
-					v = mv
+				r := m.S.Check()
+				if r != Sat {
+					panic(pathEnd{"infeasible at concretisation: " + r.String()})
 				}
+				bv, ok := m.S.Value(t)
+				if !ok {
+					panic(engineBug{"no model value for " + t.String()})
+				}
+				mv = bv.Uint64()
 			}
+			v = mv
 		}
 		eq := Eq(t, Const(t.W, v))
 		if forcedRep {
@@ -588,6 +589,24 @@ func (m *Machine) concretize(t *Term, what string, classes bool) uint64 {
 func (m *Machine) minFeasible(t *Term) (uint64, bool) {
 	w := t.W
 	lo, hi := uint64(0), mask(w)
+	// quick probes for small values (the common case)
+	for _, k := range []uint64{0, 1, 3, 7, 15, 255, 65535} {
+		if k >= hi {
+			break
+		}
+		r := m.feasible(Ule(t, Const(w, k)))
+		if r == Sat {
+			hi = k
+			break
+		} else if r == Unsat {
+			lo = k + 1
+		} else {
+			return 0, false
+		}
+	}
+	if lo > hi {
+		return 0, false
+	}
 	for lo < hi {
 		mid := lo + (hi-lo)/2
 		r := m.feasible(Ule(t, Const(w, mid)))
@@ -779,29 +798,45 @@ func (m *Machine) Oracle(name string, outLen int, inj bool, args [][]*Term) []*T
 		}
 	}
 	if p.concrete == nil {
-		for _, prev := range p.oracles {
-			if prev.name != name || len(prev.out) != len(app.out) {
-				continue
-			}
-			argsEq := TrueT
-			if len(prev.args) != len(args) {
-				argsEq = FalseT
-			} else {
-				for i := range args {
-					argsEq = And(argsEq, bytesEqTerm(prev.args[i], args[i]))
-				}
-			}
-			outEq := bytesOrBoolEq(prev.out, app.out)
-			if !argsEq.IsFalse() {
-				m.addPC(Implies(argsEq, outEq))
-			}
+		// F(args) = out gives congruence; Finv(out) = args and Flen(out) = |args|
+		// give injectivity (collision freedom) with a linear number of axioms.
+		var all []*Term
+		lens := ""
+		for _, a := range args {
+			lens += fmt.Sprintf("_%d", len(a))
+			all = append(all, a...)
+		}
+		inW := 8 * len(all)
+		var in *Term
+		if inW == 0 {
+			in = Const(8, 0)
+			inW = 8
+		} else {
+			in = catBytes(all)
+		}
+		var outT *Term
+		outW := 8 * len(app.out)
+		if outLen < 0 {
+			outW = 0
+			outT = app.out[0]
+		} else if outLen > 0 {
+			outT = catBytes(app.out)
+		}
+		if outT != nil {
+			fname := fmt.Sprintf("F!%s!%s!%d", name, lens, outW)
+			m.addPC(Eq(UF(fname, outW, in), outT))
 			if inj && outLen > 0 {
-				m.addPC(Implies(outEq, argsEq))
+				m.addPC(Eq(UF(fmt.Sprintf("Finv!%s!%s!%d", name, lens, outW), inW, outT), in))
+				// distinct argument shapes => distinct outputs
+				shape := fmt.Sprintf("%s|%s", name, lens)
+				id, ok := m.shapeIDs[shape]
+				if !ok {
+					id = len(m.shapeIDs) + 1
+					m.shapeIDs[shape] = id
+				}
+				m.addPC(Eq(UF(fmt.Sprintf("Fshape!%s!%d", name, outW), 32, outT), Const(32, uint64(id))))
 			}
 		}
-	} else {
-		// concrete replay: congruence must be honoured by construction; the model
-		// supplies values, equal arguments were given equal outputs by the solver.
 	}
 	p.oracles = append(p.oracles, app)
 	p.oracleMemo[key] = app
